@@ -38,6 +38,8 @@ def configs(tier, seed):
                 out.append(dict(K=K, F=F, cand=cand, matching=matching, reduction=reduction, window=window, thr=0.0))
             if matching == "hungarian" or tier == "thorough":
                 out.append(dict(K=2, F=3, cand=cand, matching=matching, reduction="mean", window=4, thr=0.5, sym_inst_scores=True, max_paths=400000))
+            # detections whose pose is entirely missing (every association score NaN), two frames
+            out.append(dict(K=2, F=2, cand=cand, matching=matching, reduction="mean", window=3, thr=0.0, nan_pose=True))
             if tier == "thorough" and matching == "hungarian":
                 out.append(dict(K=2, F=4, cand=cand, matching=matching, reduction="mean", window=2, thr=0.0))
                 out.append(dict(K=3, F=3, cand=cand, matching=matching, reduction="max", window=2, thr=0.0, score_range="neg"))
